@@ -1,26 +1,62 @@
 import PartituraModel.Wire
-import PartituraModel.Model.PianoRoll
+import PartituraModel.Model.PianoRollArgs
 
 open Wire Model Model.PianoRoll
 
-/-- keyword arguments shared by `pr` and `pc` requests -/
-def parseArgs : P (Args × Bool) := do
-  let tu ← str
-  let td ← opt int
-  let removeDrums ← bool
-  let onsetOnly ← bool
-  let noteSep ← bool
-  let pitchMargin ← int
-  let timeMargin ← int
-  let pianoRange ← bool
-  let removeSilence ← bool
-  let endTime ← opt rat
-  let binary ← bool
-  let retIdx ← bool
-  pure ({ timeUnit := tu, timeDiv := td, removeDrums := removeDrums,
-          opts := { timeDiv := 0, onsetOnly := onsetOnly, noteSep := noteSep, pitchMargin := pitchMargin,
-                    timeMargin := timeMargin, pianoRange := pianoRange, removeSilence := removeSilence,
-                    endTime := endTime, binary := binary } }, retIdx)
+def parseTimeDiv : P (Option TimeDivArg) := do
+  let t ← tok
+  match t with
+  | "-" => pure none
+  | "auto" => pure (some .auto)
+  | "arr" => pure (some .array)
+  | "n" => do
+    let q ← rat
+    pure (some (.num q))
+  | _ => P.fail
+
+def parseEndTime : P (Option EndTimeArg) := do
+  let t ← tok
+  match t with
+  | "-" => pure none
+  | "s" => do
+    let q ← rat
+    pure (some (.scalar q))
+  | "a" => do
+    let xs ← list rat
+    pure (some (.array xs))
+  | _ => P.fail
+
+/-- keyword arguments of `compute_pianoroll` (`-` = not given) -/
+def parseKw : P KwArgs := do
+  let tu ← opt str
+  let td ← parseTimeDiv
+  let oo ← opt bool
+  let ns ← opt bool
+  let pm ← opt int
+  let tm ← opt rat
+  let ri ← opt bool
+  let pr ← opt bool
+  let rd ← opt bool
+  let rs ← opt bool
+  let et ← parseEndTime
+  let bi ← opt bool
+  pure { timeUnit := tu, timeDiv := td, onsetOnly := oo, noteSep := ns, pitchMargin := pm, timeMargin := tm,
+         returnIdxs := ri, pianoRange := pr, removeDrums := rd, removeSilence := rs, endTime := et, binary := bi }
+
+/-- keyword arguments of `compute_pitch_class_pianoroll` (`-` = not given) -/
+def parsePcKw : P PcKw := do
+  let nz ← opt bool
+  let tu ← opt str
+  let td ← parseTimeDiv
+  let oo ← opt bool
+  let ns ← opt bool
+  let tm ← opt rat
+  let ri ← opt bool
+  let rs ← opt bool
+  let et ← parseEndTime
+  let bi ← opt bool
+  pure { normalize := nz, timeUnit := tu, timeDiv := td, onsetOnly := oo, noteSep := ns, timeMargin := tm,
+         returnIdxs := ri, removeSilence := rs, endTime := et, binary := bi }
 
 def parseRow (nu : Nat) : P Row := do
   let p ← int
@@ -58,12 +94,16 @@ def fmtRoll (r : Roll) (retIdx : Bool) : String :=
   let cells := fmtList (fun (p, j, v) => fmtTuple [fmtInt p, fmtInt j, fmtInt v]) (nonzeroCells r)
   if retIdx then shape ++ "|" ++ cells ++ "|" ++ fmtIdx r.idx else shape ++ "|" ++ cells
 
-def fmtPc (r : Roll) (binary normalize retIdx : Bool) : String :=
-  let colsN := r.cols.toNat
-  let cols := (List.range colsN).map fun (j : Nat) =>
-    fmtList fmtRat (pcColumn r binary normalize (j : Int))
-  let idx := if retIdx then fmtList (fun (a, b, c, d) => fmtList fmtInt [a, b, c, d]) r.idx else "[]"
+def fmtPc (r : PcRoll) : String :=
+  let cols := r.columns.map fun c => fmtList fmtRat c
+  let idx := match r.idx with
+    | some l => fmtList (fun (a, b, c, d) => fmtList fmtInt [a, b, c, d]) l
+    | none => "[]"
   "[" ++ fmtInt r.cols ++ "," ++ "[" ++ ",".intercalate cols ++ "]," ++ idx ++ "]"
+
+def fmtTime : Option Rat → String
+  | some q => fmtRat q
+  | none => "inf"
 
 /-- dense columns of a sparse cell list -/
 def denseCols (rows ncols : Nat) (cells : List (Nat × Nat × Int)) : List (List Int) :=
@@ -75,29 +115,29 @@ def denseCols (rows ncols : Nat) (cells : List (Nat × Nat × Int)) : List (List
 def handle (ts : List String) : String :=
   match ts with
   | "pr" :: rest =>
-    match run (do let a ← parseArgs; let arr ← parseArray; pure (a, arr)) rest with
+    match run (do let kind ← str; let kw ← parseKw; let arr ← parseArray; pure (kind, kw, arr)) rest with
     | none => "bad-request"
-    | some ((g, retIdx), arr) =>
-      match computePianoroll arr g with
+    | some (kind, kw, arr) =>
+      match computePianorollKw kind arr kw with
       | none => "err"
-      | some r => fmtRoll r retIdx
+      | some (r, retIdx) => fmtRoll r retIdx
   | "pc" :: rest =>
-    match run (do let nz ← bool; let pb ← bool; let a ← parseArgs; let arr ← parseArray; pure (nz, pb, a, arr)) rest with
+    match run (do let kind ← str; let kw ← parsePcKw; let arr ← parseArray; pure (kind, kw, arr)) rest with
     | none => "bad-request"
-    | some (nz, pb, (g, retIdx), arr) =>
-      match computePcBase arr g with
+    | some (kind, kw, arr) =>
+      match computePcKw kind arr kw with
       | none => "err"
-      | some r => fmtPc r pb nz retIdx
+      | some r => fmtPc r
   | "dec" :: rest =>
-    match run (do let rows ← nat; let ncols ← nat; let td ← int
+    match run (do let rows ← nat; let ncols ← nat; let td ← opt rat
                   let cells ← list (do let p ← nat; let j ← nat; let v ← int; pure (p, j, v))
                   pure (rows, ncols, td, cells)) rest with
     | none => "bad-request"
     | some (rows, ncols, td, cells) =>
-      match decode rows (denseCols rows ncols cells) td with
+      match decodeStored rows (denseCols rows ncols cells) td with
       | none => "err"
       | some notes =>
-        fmtList (fun (p, on, du, v) => fmtList id [fmtInt p, fmtRat on, fmtRat du, fmtInt v]) notes
+        fmtList (fun (p, on, du, v) => fmtList id [fmtInt p, fmtTime on, fmtTime du, fmtInt v]) notes
   | _ => "bad-request"
 
 def main : IO Unit := mainLoop handle
